@@ -28,6 +28,10 @@ pub struct Config {
 pub struct Case {
     pub cfg: Config,
     pub expr: String,
+    /// a configuration that was selected (and used on the same expression) earlier in the session: "can be selected"
+    /// also means selected after something else
+    #[serde(default)]
+    pub before: Option<Config>,
 }
 
 pub struct C15;
@@ -250,7 +254,26 @@ impl Property for C15 {
         let generated = textbook(operand, TexCfg { depth: if tier == Tier::Thorough { 5 } else { 4 }, size: 24, tables: true, text: true }).prop_map(|n| MNode::math(vec![n]).to_xml());
         let n = corpus().len();
         let expr = prop_oneof![1 => (0..n.max(1)).prop_map(|i| corpus().get(i).cloned().unwrap_or_default()), 2 => generated];
-        (sel(&cfgs), expr).prop_map(|(cfg, expr)| Case { cfg, expr }).boxed()
+        // one case in three selects another configuration first (half of those: the same style and verbosity with the
+        // variant's own language, the closest relative) and speaks the expression there
+        (sel(&cfgs), expr, 0..6u8, sel(&cfgs))
+            .prop_map(|(cfg, expr, visit, other)| {
+                let before = match visit {
+                    0 => Some(other),
+                    1 => {
+                        let mut b = cfg.clone();
+                        b.lang = cfg.lang.split('-').next().unwrap_or("en").to_string();
+                        b.falls_back_to = None;
+                        if b.lang == cfg.lang {
+                            b.lang = "en".to_string();
+                        }
+                        Some(b)
+                    }
+                    _ => None,
+                };
+                Case { cfg, expr, before }
+            })
+            .boxed()
     }
     fn explicit_cases(&self, tier: Tier) -> Vec<Case> {
         // every configuration x a window of the harvested corpus (the whole corpus in the thorough tier);
@@ -268,7 +291,7 @@ impl Property for C15 {
         let mut out = vec![];
         for cfg in configs() {
             for e in &window {
-                out.push(Case { cfg: cfg.clone(), expr: (*e).clone() });
+                out.push(Case { cfg: cfg.clone(), expr: (*e).clone(), before: None });
             }
         }
         out
@@ -277,7 +300,12 @@ impl Property for C15 {
         let cfg = &case.cfg;
         let key_of = |c: &Config| -> String { if c.code != "Nemeth" && c.lang == "en" { format!("code:{}", c.code) } else { format!("lang:{}", c.lang) } };
         let mut viols: Vec<(String, String)> = vec![];
-        let ctx = |s: String| format!("{}\nconfiguration: Language={} SpeechStyle={} Verbosity={} BrailleCode={}\nexpression: {}", s, cfg.lang, cfg.style, cfg.verbosity, cfg.code, case.expr);
+        let ctx = |s: String| format!("{}\nconfiguration: Language={} SpeechStyle={} Verbosity={} BrailleCode={}{}\nexpression: {}", s, cfg.lang, cfg.style, cfg.verbosity, cfg.code, case.before.as_ref().map(|b| format!(" (selected after Language={} SpeechStyle={} Verbosity={} BrailleCode={})", b.lang, b.style, b.verbosity, b.code)).unwrap_or_default(), case.expr);
+        if let Some(b) = &case.before {
+            if apply_cfg(b).is_ok() {
+                let _ = outputs(&case.expr);
+            }
+        }
         match apply_cfg(cfg) {
             Ok(()) => {}
             Err((what, Fail::Err(e))) => {
@@ -310,7 +338,7 @@ impl Property for C15 {
         // a regional variant selected in a session that has already used other configurations (the cases of a chunk share
         // one session) must load its own files: speech and overview equal those of a session that only ever had this
         // language, style and verbosity
-        if cfg.lang.contains('-') {
+        if cfg.lang.contains('-') && cfg.falls_back_to.is_none() {
             let mut only = cfg.clone();
             only.code = "Nemeth".to_string();
             if let Ok(fresh) = reference(&only, &case.expr) {
